@@ -306,7 +306,43 @@ def bounded(tier, seed, procs):
             cause = "singular-accepted" if (det == 0 and r[0] == "val") else "other"
             b2.fail(Failure("affine-solver", f"cause={cause} A={A} B={B} c={c} perm={perm} why={why}", dict(kind="solve", A=A, B=B, c=c, perm=perm), expected="exact solution or refusal", actual=why,
                             functions=["solve_affine_equations_for", "gaussian_elimination"]))
-    return [b, b_sub, b2, b_solver_shapes(tier, seed)]
+    return [b, b_sub, b2, b_solver_shapes(tier, seed), b_solver_number_types(tier)]
+
+
+def b_solver_number_types(tier):
+    """Constants and parameter coefficients that are floats or Fractions: a returned assignment satisfies every equation exactly; a non-integral solution is refused."""
+    import pymbolic.primitives as p
+    from pymbolic.algorithm import solve_affine_equations_for
+    from pymbolic.mapper.evaluator import EvaluationMapper
+    b = BoundedRun("affine-solver-number-types", rule="systems in x, y with a parameter n whose constants / parameter coefficients are floats (2.5, 0.5, 2.0) or numpy numbers, with a unit entry in "
+                   "the affected row (x = 2.5; x + y = 2.5, y = 1; x + 0.5 = n + 3; x = 0.5*n; 2*x = 5.0; x = 2.0): the call either raises, or returns assignments under which every "
+                   "equation holds exactly at n in {0, 1, -2, 5}", bound="14 systems", functions=["solve_affine_equations_for", "gaussian_elimination"])
+    import numpy as np
+    x, y, n = p.Variable("x"), p.Variable("y"), p.Variable("n")
+    systems = [(["x"], [(x, 2.5)]), (["x", "y"], [(p.Sum((x, y)), 2.5), (y, 1)]), (["x"], [(p.Sum((x, 0.5)), p.Sum((n, 3)))]), (["x"], [(x, p.Product((0.5, n)))]), (["x"], [(p.Product((2, x)), 5.0)]),
+               (["x"], [(x, 2.0)]), (["x", "y"], [(p.Sum((x, p.Product((-1, y)))), 0.5), (p.Sum((x, y)), 3)]), (["x"], [(x, p.Sum((p.Product((1.5, n)), 1)))]), (["x"], [(x, np.float64(2.5))]),
+               (["x"], [(x, np.int64(3))]), (["x", "y"], [(x, p.Sum((y, 0.25))), (y, 2)]), (["x"], [(p.Product((-1, x)), 2.5)]), (["x", "y"], [(p.Sum((x, y)), p.Sum((n, 0.5))), (p.Sum((x, p.Product((-1, y)))), 1)]),
+               (["x"], [(x, p.Quotient(5, 2))])]
+    for names, eqs in systems:
+        r = outcome.run(lambda: solve_affine_equations_for(names, eqs))
+        b.case(repr(eqs), nontrivial=True, sample=dict(equations=[(str(l_), str(r_)) for l_, r_ in eqs]))
+        if r[0] != "val":
+            continue            # a refusal is always allowed
+        why = None
+        for vn in (0, 1, -2, 5):
+            env = dict(n=Fraction(vn))
+            try:
+                full = dict(env, **{q: EvaluationMapper(env)(r[1][p.Variable(q)]) for q in names})
+                bad = [f"{l_} = {r_}" for l_, r_ in eqs if EvaluationMapper(full)(l_) != EvaluationMapper(full)(r_)]
+            except Exception as ex:   # noqa: BLE001
+                bad = [f"{type(ex).__name__}: {ex}"]
+            if bad:
+                why = f"{bad[0]} violated by {r[1]} at n={vn}"
+                break
+        if why:
+            b.fail(Failure("affine-solver-number-types", f"equations={[(str(l_), str(r_)) for l_, r_ in eqs]} why={why[:120]}", dict(kind="solve-num", equations=repr(eqs)), expected="a refusal or exact assignments",
+                           actual=why[:200], functions=["solve_affine_equations_for", "gaussian_elimination"]))
+    return b
 
 
 def b_solver_shapes(tier, seed):
